@@ -107,6 +107,16 @@ def state_streams(ctx: Ctx) -> None:
             else:
                 nm = rng.choice(names)
                 msgs.append(msggen.random_message(getattr(pb, nm), rng, fill=rng.choice([0.3, 0.8, 1.0])))
+        if si % 5 == 2:
+            # newer firmware: every state message carries two fields this client's api.proto does not know (kept by the protobuf runtime as
+            # unknown fields, so they really are on the wire): delivered as if they were not there
+            withx: list[Any] = []
+            for m in msgs:
+                m2 = type(m)()
+                m2.ParseFromString(m.SerializeToString() + b"\xe0\x76\x2a" + b"\xea\x76\x03abc")
+                withx.append(m2)
+            msgs = withx
+            res.count("workload/state-stream/with-unknown-fields")
         if si % 4 == 3:
             # an entity reporting the same value again (and again): every message is a message - identical consecutive ones, and identical ones
             # separated by other traffic, each produce their callback
